@@ -38,6 +38,7 @@ fn main() {
         std::process::exit(0);
     }));
     let quick = std::env::var("REPLAY_ITERS").ok().and_then(|s| s.parse().ok()).unwrap_or(64usize);
+    if probe.starts_with("fiat:") { field::fiat_replay(&mut cx, probe); println!("OK {}", cx.n); return; }
     match probe {
         "field.fq" => field::probe_fq(&mut cx, quick),
         "field.fr" => field::probe_fr(&mut cx, quick),
